@@ -45,7 +45,18 @@
    assessor.name, enable_cache, cache_ttl and the three breaker settings
    ([RSet]) between any two operations, also while requests are in flight; the
    configuration is then part of the state ([rstate]) and every event records
-   the configuration it was produced under.  [run_case] runs this layer. *)
+   the configuration it was produced under.
+
+   Time (Section Timed).  An agent's express() TAKES time, and the constructor
+   keeps a `timeout_seconds` in a public attribute.  A timed history [top] is a
+   history with reconfiguration in which a request carried out in one go may
+   say how long each of its agents needs before it answers ([TSlow q d]) and
+   in which timeout_seconds may be assigned ([TSetTimeout v]).  run() calls the
+   agents synchronously and reads timeout_seconds nowhere: a slow request is
+   its first half at the clock value of the call and its second half [elapsed]
+   later (that is the clock value its cache entry and the breaker's failure
+   stamp carry), and the timeout in force is carried along and consulted by
+   nothing.  [run_case] runs this layer. *)
 From Coq Require Import ZArith List Bool.
 From Verif Require Import Common.Corr.
 Import ListNotations.
@@ -641,6 +652,104 @@ Definition rdone_at (e : rev) : option Z :=
   match e with RvOp _ _ x => xdone_at x | RvSet _ _ _ => None end.
 
 (* ---------------------------------------------------------------------- *)
+(* agents that need time; timeout_seconds                                    *)
+
+(* how long executor.express / assessor.express takes IF it is invoked at a request (same unit as the clock) *)
+Record delays := mkDl { d_exec : Z; d_assess : Z }.
+
+(* the time a request that went to the agents spends inside them: run() calls them one after the
+   other (loops.py 227-228) and waits for each however long it takes; the assessor is not asked
+   when the executor raised *)
+Definition elapsed (q : req) (d : delays) : Z :=
+  d_exec d + (if raised (q_exec q) then 0 else d_assess d).
+
+(* an operation of a timed history *)
+Inductive top :=
+| TPlain (o : rop)                 (* any operation of a history with reconfiguration (agents answer at once; a
+                                      request begun with [XBegin] takes as long as its [XEnd] says) *)
+| TSlow (q : req) (d : delays)     (* loop.run(q_prompt q) called at clock [q_time q], carried out in one go, with
+                                      agents that need [d] before they answer *)
+| TSetTimeout (v : Z).             (* loop.timeout_seconds = v *)
+
+(* the id under which the events of slow requests appear ([EvReturned] / [EvCompleted]) *)
+Definition slow_id : Z := -1.
+
+(* one loop object: timeout_seconds, and everything else *)
+Definition tstate := (Z * rstate)%type.
+
+(* what the harness sees of one [top]: the event as before, and the timeout_seconds in force *)
+Definition tev := (Z * rev)%type.
+
+Section Timed.
+  Variable H : str -> str.
+  Variable K : str -> str.
+
+  (* run() in one go with slow agents: lines 198-220 at the clock value of the call; if the agents
+     are asked, lines 229-275 at the clock value at which the last of them has answered.  Nothing in
+     between looks at how long they took. *)
+  Definition slow_step (cf : config) (bc : bconfig) (x : xstate) (q : req) (d : delays) : xstate * xev :=
+    let '(s, pend) := x in
+    let '(s1, r) := enter K cf bc s (q_prompt q) (q_time q) in
+    match r with
+    | ERejected => ((s1, pend), EvReturned slow_id q (rejected_reply (length (fst s1))) false)
+    | EHit res => ((s1, pend), EvReturned slow_id q (hit_reply res (length (fst s1))) true)
+    | EMiss => let now := q_time q + elapsed q d in
+               let '(s2, rp) := leave H K cf bc s1 q now in
+               ((s2, pend), EvCompleted slow_id q now rp)
+    end.
+
+  (* [tmo] (timeout_seconds) is stored by the constructor / an assignment and read by nothing *)
+  Definition tstep (t : tstate) (o : top) : tstate * tev :=
+    let '(tmo, r) := t in
+    match o with
+    | TPlain a => let '(r', e) := rstep H K r a in ((tmo, r'), (tmo, e))
+    | TSlow q d =>
+        let '(cf, bc, x) := r in
+        let '(x', e) := slow_step cf bc x q d in ((tmo, (cf, bc, x')), (tmo, RvOp cf bc e))
+    | TSetTimeout v =>
+        let '(cf, bc, x) := r in ((v, r), (v, RvSet cf bc (length (fst (fst x)))))
+    end.
+
+  Fixpoint ttrace_from (t : tstate) (ops : list top) : list tev :=
+    match ops with
+    | [] => []
+    | o :: rest => let '(t', e) := tstep t o in e :: ttrace_from t' rest
+    end.
+
+  Definition ttrace (tmo : Z) (cf : config) (bc : bconfig) (ops : list top) : list tev :=
+    ttrace_from (tmo, (cf, bc, x0)) ops.
+
+  (* two loop objects, one interleaved timed history *)
+  Fixpoint tsys_from (t0 t1 : tstate) (tops : list (bool * top)) : list (bool * tev) :=
+    match tops with
+    | [] => []
+    | (b, o) :: rest =>
+        if b then let '(t1', e) := tstep t1 o in (b, e) :: tsys_from t0 t1' rest
+        else let '(t0', e) := tstep t0 o in (b, e) :: tsys_from t0' t1 rest
+    end.
+
+  Definition tsys_trace (tmo0 tmo1 : Z) (cf0 cf1 : config) (bc0 bc1 : bconfig)
+             (tops : list (bool * top)) : list (bool * tev) :=
+    tsys_from (tmo0, (cf0, bc0, x0)) (tmo1, (cf1, bc1, x0)) tops.
+End Timed.
+
+(* the events of a timed history without the timeouts: a history's events as in [rtrace] *)
+Definition untimed (l : list tev) : list rev := map snd l.
+
+(* timeout_seconds and the configuration after the assignments among [ops] *)
+Fixpoint tconfig_after (c : Z * (config * bconfig)) (ops : list top) : Z * (config * bconfig) :=
+  match ops with
+  | [] => c
+  | TPlain (RSet s) :: rest => tconfig_after (fst c, apply_setting s (snd c)) rest
+  | TSetTimeout v :: rest => tconfig_after (v, snd c) rest
+  | _ :: rest => tconfig_after c rest
+  end.
+
+(* another value for every assignment of timeout_seconds *)
+Definition retime (g : Z -> Z) (o : top) : top :=
+  match o with TSetTimeout v => TSetTimeout (g v) | _ => o end.
+
+(* ---------------------------------------------------------------------- *)
 (* codes shared with the harness                                            *)
 
 Definition action_code (a : action) : Z :=
@@ -695,22 +804,26 @@ Inductive cop :=
 | CReq (p : str) (t : Z) (z y : verdict) | CClear | CObserve | CReset
 | CBegin (id : Z) (p : str) (t : Z) (z y : verdict)     (* run(p) starts at clock t ... *)
 | CEnd (id : Z) (t : Z)                                 (* ... and, if it went to the agents, returns at clock t *)
-| CSet (s : setting).                                   (* an assignment to a configuration attribute *)
+| CSet (s : setting)                                    (* an assignment to a configuration attribute *)
+| CSlow (p : str) (t : Z) (z y : verdict) (dz dy : Z)   (* run(p) at clock t; the executor needs dz, the assessor dy *)
+| CSetTimeout (v : Z).                                  (* loop.timeout_seconds = v *)
 
-Definition rop_of (o : cop) : rop :=
+Definition top_of (o : cop) : top :=
   match o with
-  | CReq p t z y => RX (XAtomic (OReq (mkReq p t z y)))
-  | CClear => RX (XAtomic OClear)
-  | CObserve => RX (XAtomic OObserve)
-  | CReset => RX (XAtomic OReset)
-  | CBegin id p t z y => RX (XBegin id (mkReq p t z y))
-  | CEnd id t => RX (XEnd id t)
-  | CSet s => RSet s
+  | CReq p t z y => TPlain (RX (XAtomic (OReq (mkReq p t z y))))
+  | CClear => TPlain (RX (XAtomic OClear))
+  | CObserve => TPlain (RX (XAtomic OObserve))
+  | CReset => TPlain (RX (XAtomic OReset))
+  | CBegin id p t z y => TPlain (RX (XBegin id (mkReq p t z y)))
+  | CEnd id t => TPlain (RX (XEnd id t))
+  | CSet s => TPlain (RSet s)
+  | CSlow p t z y dz dy => TSlow (mkReq p t z y) (mkDl dz dy)
+  | CSetTimeout v => TSetTimeout v
   end.
 
 (* configuration of one loop object AT CONSTRUCTION: gate logic, assessor name, enable_cache, ttl,
-   enable_circuit_breaker, failure_threshold, recovery_timeout *)
-Definition lcfg := (logic * str * bool * Z * bool * Z * Z)%type.
+   enable_circuit_breaker, failure_threshold, recovery_timeout, timeout_seconds *)
+Definition lcfg := (logic * str * bool * Z * bool * Z * Z * Z)%type.
 
 Definition case := (lcfg * lcfg * nat * list (bool * cop))%type.
 
@@ -745,8 +858,8 @@ Definition xev_obs (cf0 cf1 : config) (x : bool * xev) : list Z :=
   | EvNoSuch _ n => [-2; Z.of_nat n]
   end.
 
-(* an assignment: [-4; cache size]; everything else as before, the token's issuer being compared with
-   the assessor's name at that moment *)
+(* an assignment (of timeout_seconds too): [-4; cache size]; everything else as before, the token's issuer
+   being compared with the assessor's name at that moment; the reply of a slow request: the eleven values *)
 Definition rev_obs (x : bool * rev) : list Z :=
   let '(b, e) := x in
   match e with
@@ -755,15 +868,18 @@ Definition rev_obs (x : bool * rev) : list Z :=
   end.
 
 Definition config_of (l : lcfg) (cap : nat) : config :=
-  let '(lg, nm, en, ttl, _, _, _) := l in mkConfig lg nm en ttl cap.
+  let '(lg, nm, en, ttl, _, _, _, _) := l in mkConfig lg nm en ttl cap.
 
 Definition bconfig_of (l : lcfg) : bconfig :=
-  let '(_, _, _, _, be, th, rc) := l in mkBcfg be th rc.
+  let '(_, _, _, _, be, th, rc, _) := l in mkBcfg be th rc.
+
+Definition timeout_of (l : lcfg) : Z :=
+  let '(_, _, _, _, _, _, _, tmo) := l in tmo.
 
 Definition run_case (c : case) : list (list Z) :=
   let '(l0, l1, cap, tops) := c in
   let cf0 := config_of l0 cap in
   let cf1 := config_of l1 cap in
-  map rev_obs
-      (rsys_trace (fun p => p) (fun p => p) cf0 cf1 (bconfig_of l0) (bconfig_of l1)
-                  (map (fun x : bool * cop => (fst x, rop_of (snd x))) tops)).
+  map (fun x : bool * tev => rev_obs (fst x, snd (snd x)))
+      (tsys_trace (fun p => p) (fun p => p) (timeout_of l0) (timeout_of l1) cf0 cf1 (bconfig_of l0) (bconfig_of l1)
+                  (map (fun x : bool * cop => (fst x, top_of (snd x))) tops)).
